@@ -165,6 +165,19 @@ func runCase(cs CaseSpec) (viols []string, classes map[string]int) {
 			st.preAt = time.Now()
 			st.mu.Unlock()
 			srv.Publish(p.Reply, []byte(fmt.Sprintf(`timeout:"%d"`, preExtend)))
+		case "prebad":
+			// a pre-response whose timeout does not parse, then silence: the
+			// configured timeout stays in force
+			bad := []string{`timeout:"abc"`, `timeout:""`, `timeout:"1.5s"`, `timeout:"99999999999999999999"`, `timeout:"-"`, `timeout:`}
+			srv.Publish(p.Reply, []byte(bad[len(p.Subject)%len(bad)]))
+		case "prebad2":
+			// a valid pre-response followed by a malformed one, then silence: the
+			// extended timeout stays in force
+			st.mu.Lock()
+			st.preAt = time.Now()
+			st.mu.Unlock()
+			srv.Publish(p.Reply, []byte(fmt.Sprintf(`timeout:"%d"`, preExtend)))
+			srv.Publish(p.Reply, []byte(`timeout:"abc"`))
 		case "pre2":
 			srv.Publish(p.Reply, []byte(fmt.Sprintf(`timeout:"%d"`, preExtend)))
 			time.AfterFunc(300*time.Millisecond, func() {
@@ -349,7 +362,7 @@ func runCase(cs CaseSpec) (viols []string, classes map[string]int) {
 			allowed["timeout"] = true
 		case "pre":
 			allowed["reply"] = true
-		case "presilent", "pre2":
+		case "presilent", "pre2", "prebad", "prebad2":
 			allowed["timeout"] = true
 		case "503":
 			allowed["notfound"] = true
@@ -377,7 +390,7 @@ func runCase(cs CaseSpec) (viols []string, classes map[string]int) {
 			// one-sided: a timeout is never earlier than the (extended) deadline
 			min := reqTimeout
 			from := st.sentAt
-			if (st.spec.Behaviour == "presilent" || st.spec.Behaviour == "pre2") && !preAt.IsZero() {
+			if (st.spec.Behaviour == "presilent" || st.spec.Behaviour == "pre2" || st.spec.Behaviour == "prebad2") && !preAt.IsZero() {
 				min = time.Duration(preExtend) * time.Millisecond
 				from = preAt
 			}
@@ -682,7 +695,7 @@ func minDur(a, b time.Duration) time.Duration {
 func genCase(t *rapid.T) CaseSpec {
 	var cs CaseSpec
 	n := rapid.IntRange(5, 40).Draw(t, "nreq")
-	behs := []string{"reply", "reply", "multi", "silent", "late", "pre", "presilent", "pre2", "503", "race", "long", "long"}
+	behs := []string{"reply", "reply", "multi", "silent", "late", "pre", "presilent", "pre2", "prebad", "prebad2", "503", "race", "long", "long"}
 	for i := 0; i < n; i++ {
 		r := ReqSpec{Behaviour: rapid.SampledFrom(behs).Draw(t, "behaviour")}
 		r.Payload = rapid.SampledFrom([]int{9, 10, 99, 100, 999, 1000, 9999, 12000}).Draw(t, "payload")
